@@ -44,6 +44,29 @@ thread_local! {
     static CMPS: Cell<u64> = Cell::new(0);
 }
 
+/// cases currently being evaluated (thread, "job/part", start) - read only by the watchdog, to say where a run hung
+static IN_FLIGHT: std::sync::Mutex<Vec<(std::thread::ThreadId, String, Instant)>> = std::sync::Mutex::new(Vec::new());
+
+struct InFlight;
+impl InFlight {
+    fn enter(what: String) -> InFlight {
+        if let Ok(mut g) = IN_FLIGHT.lock() {
+            g.push((std::thread::current().id(), what, Instant::now()));
+        }
+        InFlight
+    }
+}
+impl Drop for InFlight {
+    fn drop(&mut self) {
+        if let Ok(mut g) = IN_FLIGHT.lock() {
+            let me = std::thread::current().id();
+            if let Some(i) = g.iter().rposition(|e| e.0 == me) {
+                g.swap_remove(i);
+            }
+        }
+    }
+}
+
 pub fn install_panic_hook() {
     panic::set_hook(Box::new(|info| {
         let file = info.location().map(|l| format!("{}:{}", l.file(), l.line())).unwrap_or_default();
@@ -326,7 +349,9 @@ impl<'a> Ctx<'a> {
     ) -> Result<(), String> {
         let mut obs = Obs::new(counting && *part_samples < MAX_SAMPLES_PER_PART);
         let before = CMPS.with(|c| c.get());
+        let in_flight = InFlight::enter(format!("{}/{}", self.job, part));
         let r = catch(|| f(v, &mut obs));
+        drop(in_flight);
         let cm = CMPS.with(|c| c.get()) - before;
         let r = match r {
             Ok(r) => r,
@@ -608,6 +633,14 @@ pub fn main(prop: Property, jobs: Vec<Job>, selftests: &[(&str, fn() -> Result<u
     std::thread::spawn(move || {
         std::thread::sleep(std::time::Duration::from_secs(limit_s));
         println!("INCONCLUSIVE property={} watchdog after {} s", pid, limit_s);
+        if let Ok(g) = IN_FLIGHT.lock() {
+            for (_, what, since) in g.iter() {
+                let secs = since.elapsed().as_secs();
+                if secs >= 20 {
+                    println!("  a single case of {} has been running for {} s (a hang in the code under test, or a runaway case)", what, secs);
+                }
+            }
+        }
         std::process::exit(2);
     });
 
